@@ -552,6 +552,23 @@ struct VM : VMBase
         fen.before_close = [](quill::fs::path const&, FILE*) {};
         fen.after_close = [](quill::fs::path const&) {};
         fen.before_write = [](std::string_view message) { return std::string{message}; };
+        if (plan.get("sink" + std::to_string(i) + "_notifier", 0) == 3)
+        {
+          // the callbacks report the closing of the file (C17: "destroyed and its file closed"); the file is read back in the
+          // very step in which after_close runs
+          fen.before_close = [this, i](quill::fs::path const&, FILE*)
+          {
+            Ev& e = this->record(EV_NOTE, 5, i);
+            e.s = "before_close";
+          };
+          fen.after_close = [this, i, path](quill::fs::path const&)
+          {
+            Ev& e = this->record(EV_FILE_SNAP, i);
+            e.c = 1; // taken at the close
+            e.s = read_whole_file(path);
+            this->record(EV_SINK_DTOR, i);
+          };
+        }
         if (plan.get("sink" + std::to_string(i) + "_notifier", 0) == 2)
         {
           // the after_open callback fails whenever the sink re-opens its file (it does after somebody deleted the file)
